@@ -152,6 +152,7 @@ func runC18(e *Env, p *Plan) {
 		c := c
 		e.S.Go("closer-"+c.Name, func() {
 			<-closeGo
+			simrt.Yield("closer-wake-" + c.Name)
 			c.Close(e)
 			if c.Name == "A" {
 				close(closedC)
